@@ -243,6 +243,16 @@ def _noop_print(*a, **k):
     return None
 
 
+def _sym_isfinite(x):
+    if isinstance(x, T):
+        return True  # symbolic scalars are finite reals; inf / nan are separate concrete cases
+    raise Undecided("math.isfinite of an array")
+
+
+import math as _math  # noqa: E402
+
+NATIVE_OVERRIDES = {_math.isfinite: _sym_isfinite}
+
 SYM_BUILTINS = {
     "len": _sym_len,
     "isinstance": _sym_isinstance,
@@ -277,6 +287,11 @@ class World:
     def load(self, name) -> ShadowModule:
         if name in self.modules:
             return self.modules[name]
+        # like CPython: parent packages are imported first (their __init__ fixes the import order)
+        if "." in name:
+            self.load(name.rsplit(".", 1)[0])
+            if name in self.modules:
+                return self.modules[name]
         path = self.path_of(name)
         if path is None:
             raise Undecided(f"shadow module {name} not found under {self.src_root}")
@@ -758,6 +773,8 @@ class Interp:
 
     def e_Call(self, e, env, mod):
         f = self.eval(e.func, env, mod)
+        if f is builtins.super and not e.args and not e.keywords:
+            return self._zero_arg_super(env, mod)
         args = []
         for a in e.args:
             if isinstance(a, ast.Starred):
@@ -778,7 +795,25 @@ class Interp:
                 if k.arg in kwargs:
                     raise TypeError(f"{_fname(f)}() got multiple values for keyword argument {k.arg!r}")
                 kwargs[k.arg] = self.eval(k.value, env, mod)
+        ov = NATIVE_OVERRIDES.get(f) if isinstance(f, (types.BuiltinFunctionType, types.FunctionType)) else None
+        if ov is not None and any(isinstance(a, (T, SymArray)) for a in args):
+            return ov(*args, **kwargs)
         return f(*args, **kwargs)
+
+    def _zero_arg_super(self, env, mod):
+        """super() inside a method of a module-level class: class by name, instance = first parameter"""
+        fe = env
+        while fe is not None and fe.kind != "function":
+            fe = fe.parent
+        if fe is None or not env.cls:
+            raise RuntimeError("super(): no arguments")
+        cls = mod._env.vars.get(env.cls)
+        if not isinstance(cls, type):
+            raise Undecided("super() in a class that is not defined at module level")
+        names = [k for k in fe.vars if k != "__qualprefix__"]
+        if not names:
+            raise RuntimeError("super(): no arguments")
+        return builtins.super(cls, fe.vars[names[0]])
 
     # comprehensions
     def _comp(self, gens, env, mod, emit):
